@@ -28,4 +28,18 @@ def gen(w, rng, tier):
     # the Greek mu look-alike and other Unicode near misses
     for s in ("μ", "µ ", " µ", "Μ", "da ", "Da", "DA", "k​"):
         ops.append(("abbr:near-miss", f"si abbr {hexs(s)}"))
+    # encodings near every real abbreviation: a code point with the same low byte / low 16 bits (a lookup table
+    # indexed by a truncated code point), NUL bytes before / after / between (a packed key that does not encode
+    # the length), full-width and small-capital look-alikes, combining marks, other case, surrounding white space
+    abbrs = ["", "da"] + [c for c in "qryzafpnµmcdhkMGTPEZYRQ"]
+    for s in abbrs:
+        vs = ["\0" + s, s + "\0", "\0\0" + s, "\0" + s + "\0", s + s, s + "\u0301", " " + s, s + " ", s + "\n", s.swapcase()]
+        if len(s) == 1:
+            o = ord(s)
+            vs += [chr(o + 0x100 * k) for k in (1, 2, 3, 0x4E)] + [chr(o + 0x10000), chr(0xFEE0 + o) if 0x21 <= o <= 0x7E else "\uFFFD"]
+        if len(s) == 2:
+            vs += [s[0] + "\0" + s[1], s[1] + s[0], chr(ord(s[0]) + 0x100) + s[1], s[0] + chr(ord(s[1]) + 0x100)]
+        for v in vs:
+            if v != s and v not in abbrs:
+                ops.append(("abbr:encoding", f"si abbr {hexs(v)}"))
     return ops
